@@ -1,4 +1,5 @@
 """C01 — every result is a valid symmetric array (charge conservation is closed)."""
+from symv import gen
 from symv import refsym as R
 from symv.audit import audit_any
 from symv.dense import describe, is_array, is_fermionic, is_vector, phases_of, struct_sig
@@ -82,6 +83,98 @@ def run_program(ctx, rng):
     ctx.count("programs", "completed")
 
 
+def utils_case(ctx, rng):
+    """The library's own random constructors (symmray.utils) are public operations too: what
+    they return must be valid, for every documented option."""
+    from symv.audit import audit_index
+
+    sr = ctx.sr
+    sym = rng.choice(["Z2", "U1", "Z2Z2", "U1U1"])
+    nd = rng.randint(0, 4)
+
+    def dim():
+        r = rng.random()
+        if r < 0.15:
+            cs = rng.sample(gen.POOL[sym], rng.randint(1, min(3, len(gen.POOL[sym]))))
+            return {c: rng.randint(1, 3) for c in sorted(cs)}
+        return rng.choice([1, 1, 2, 3, 4, 5, 6, 8])
+
+    shape = tuple(dim() for _ in range(nd))
+    nsub = rng.randint(1, 3)
+    subsizes = rng.choice([None, None, "equal", "maximal", "minimal", tuple(rng.randint(1, 3) for _ in range(nsub))])
+    duals = rng.choice([None, None, "equals", [rng.random() < 0.5 for _ in range(nd)]])
+    ferm = rng.random() < 0.4
+    kw = dict(duals=duals, seed=rng.randint(0, 10**6), dist=rng.choice(["normal", "uniform"]), fermionic=ferm, subsizes=subsizes)
+    if rng.random() < 0.3:
+        kw["charge"] = R.identity(sym)
+    if ferm and rng.random() < 0.5:
+        kw["oddpos"] = rng.randint(1, 50)
+    wit = {"call": f"utils.get_rand({sym!r}, {shape!r}, " + ", ".join(f"{k}={v!r}" for k, v in kw.items()) + ")"}
+    which = rng.random()
+    if which < 0.7:
+        o = ctx.call(sr.utils.get_rand, sym, shape, **kw)
+        name = "utils.get_rand"
+    elif which < 0.9:
+        d = dim() if rng.random() < 0.8 else rng.choice([1, 2])
+        kw2 = dict(dual=rng.choice([None, True, False]), subsizes=subsizes, seed=kw["seed"])
+        wit = {"call": f"utils.rand_index({sym!r}, {d!r}, " + ", ".join(f"{k}={v!r}" for k, v in kw2.items()) + ")"}
+        o = ctx.call(sr.utils.rand_index, sym, d, **kw2)
+        name = "utils.rand_index"
+    else:
+        size = rng.randint(1, 12)
+        bs = rng.choice([0.25, 0.5, 1, 2, 3])
+        wit = {"call": f"utils.get_rand_blockvector({size}, block_size={bs})"}
+        o = ctx.call(sr.utils.get_rand_blockvector, size, block_size=bs, seed=kw["seed"])
+        name = "utils.get_rand_blockvector"
+    ctx.count("op", name)
+    if not o.ok:
+        # explicit sub-sizes that do not fit the requested size etc. may be refused
+        ctx.count("raises", f"{name}:{o.excname}")
+        return
+    ctx.evaluated()
+    ctx.count("utils", f"subsizes={subsizes if not isinstance(subsizes, tuple) else 'tuple'}")
+    res = o.value
+    if name == "utils.rand_index":
+        errs = audit_index(res, sym)
+    else:
+        errs = audit_any(res)
+    if errs:
+        ctx.violation(f"invalid-result:{name}", f"{wit['call']} returned an invalid {'index' if name.endswith('index') else 'array'}: {'; '.join(errs[:3])}", wit)
+        return
+    if name == "utils.get_rand" and is_array(res) and nontrivial(res):
+        ctx.nontrivial((name, struct_sig(res)))
+    if name == "utils.get_rand" and is_array(res) and res.blocks and res.ndim <= 4 and rng.random() < 0.5:
+        # carry on: a short program that starts from this array (charge labels as the library
+        # itself makes them)
+        prog = Program(ctx, rng, sym=sym, fermionic=ferm, dtype="float64", values="gauss", kind="static")
+        prog.pool.append(res)
+        trace = [name]
+        for step in range(rng.randint(3, 10)):
+            st = prog.pick()
+            if st is None:
+                break
+            nm, operands, f, info = st
+            trace.append(nm)
+            o2 = ctx.call(f, *operands)
+            ctx.count("op", nm)
+            if not o2.ok:
+                ctx.count("raises", f"{nm}:{o2.excname}")
+                continue
+            if not any(is_array(v) or is_vector(v) for v in (o2.value if isinstance(o2.value, (tuple, list)) else [o2.value])):
+                continue
+            ctx.evaluated()
+            e3 = audit_any(o2.value)
+            if e3:
+                mech = f"invalid-result:{nm.split(':')[0]}"
+                if nm == "expand_dims_charge" and ferm and R.par(sym, info.get("expand_charge")) and all("odd-position labels" in e for e in e3):
+                    mech = "expand_dims-odd-charge-labels"
+                ctx.violation(mech, f"{nm} (program started from {wit['call']}) returned an invalid array: {'; '.join(e3[:3])}", dict(wit, trace=trace[-10:]))
+                break
+            prog.admit(o2.value)
+
+
 def run(ctx):
     for _, rng in ctx.cases("programs", ctx.budget(36000, 700000)):
         ctx.run_case(run_program, ctx, rng)
+    for _, rng in ctx.cases("utils", ctx.budget(15000, 300000)):
+        ctx.run_case(utils_case, ctx, rng)
